@@ -1215,6 +1215,14 @@ func (a *Assembler) closeHalfConnection(conn *connection, half *halfconnection) 
 		a.pc.replace(p)
 		half.pages--
 	}
+	// pages kept on request of the stream are of no use once the half is
+	// closed: give them back as well, or they stay counted as used forever
+	for p := half.saved; p != nil; p = next {
+		next = p.next
+		a.pc.replace(p)
+		half.pages--
+	}
+	half.saved = nil
 
 	if conn.s2c.closed && conn.c2s.closed {
 		if half.stream.ReassemblyComplete(nil) { //FIXME: which context to pass ?
